@@ -293,3 +293,142 @@ def interval_disjoint(rej, allowed):
 def nfs(src, subst=None):
     """Normal form (rendered) of an expression given as source text: for writing expectations."""
     return show(nf(ast.parse(src, mode='eval').body, subst))
+
+
+# ------------------------------------------------------------------------------------------------ object state
+MUTATORS = ('append', 'extend', 'insert', 'remove', 'pop', 'clear', 'sort', 'reverse', 'update', 'setdefault', 'popitem', 'add', 'discard',
+            'appendleft', 'popleft', 'intersection_update', 'difference_update', 'symmetric_difference_update')
+
+
+def mutations_of(func, chain_text):
+    """nodes of func that change the object held in `chain_text` (e.g. 'self.objects'): rebinding, item / slice stores and
+    deletes, augmented assignment, in-place methods - on the attribute itself or on a local that was bound to it"""
+    import ast as _ast
+    from ..norm import attr_chain as _chain
+    aliases = {chain_text}
+    for n in _ast.walk(func):
+        if isinstance(n, _ast.Assign) and len(n.targets) == 1 and isinstance(n.targets[0], _ast.Name):
+            v = n.value
+            # x = a.b  |  x = a.b or {}  |  x = a.b if c else ...
+            cands = [v] + (list(v.values[:1]) if isinstance(v, _ast.BoolOp) and isinstance(v.op, _ast.Or) else []) + ([v.body, v.orelse] if isinstance(v, _ast.IfExp) else [])
+            if any(_chain(c) == chain_text for c in cands):
+                aliases.add(n.targets[0].id)
+    out = []
+    for n in _ast.walk(func):
+        if isinstance(n, (_ast.Assign, _ast.AugAssign, _ast.AnnAssign, _ast.Delete)):
+            tgs = n.targets if isinstance(n, (_ast.Assign, _ast.Delete)) else [n.target]
+            for t in tgs:
+                for x in _ast.walk(t):
+                    if isinstance(x, _ast.Subscript) and _chain(x.value) in aliases and isinstance(x.ctx, (_ast.Store, _ast.Del)):
+                        out.append(n)
+                    elif isinstance(x, _ast.Attribute) and _chain(x) == chain_text and isinstance(x.ctx, (_ast.Store, _ast.Del)):
+                        out.append(n)
+            if isinstance(n, _ast.AugAssign) and _chain(n.target) in aliases:
+                out.append(n)
+        elif isinstance(n, _ast.Call) and isinstance(n.func, _ast.Attribute) and n.func.attr in MUTATORS and _chain(n.func.value) in aliases:
+            out.append(n)
+    return out
+
+
+def init_closure(cls, roots=('__init__',)):
+    """names of the methods of cls reachable from the constructor through self.m() calls"""
+    import ast as _ast
+    methods = {f.name: f for f in cls.body if isinstance(f, _ast.FunctionDef)}
+    seen, todo = set(), [r for r in roots if r in methods]
+    while todo:
+        m = todo.pop()
+        if m in seen:
+            continue
+        seen.add(m)
+        for c in _ast.walk(methods[m]):
+            if isinstance(c, _ast.Call) and isinstance(c.func, _ast.Attribute) and isinstance(c.func.value, _ast.Name) and c.func.value.id == 'self' and c.func.attr in methods:
+                todo.append(c.func.attr)
+    return seen
+
+
+def check_fresh_returns(rep, rule, ix, modname, extra_modules=(), only=None):
+    """a local that is bound to the result of a function of the same module and then changed in place: that function must hand
+    out a new object on every call (a display, comprehension or constructor call) - a module- or class-level object handed out
+    and changed by the caller carries one call's data into the next (another file, another object)"""
+    import ast as _ast
+    from ..norm import attr_chain as _chain
+    m = ix.module(modname)
+    funcs = {}
+    for st in m.tree.body:
+        if isinstance(st, _ast.FunctionDef):
+            funcs[st.name] = st
+        elif isinstance(st, _ast.ClassDef):
+            for g in st.body:
+                if isinstance(g, _ast.FunctionDef):
+                    funcs.setdefault(g.name, g)
+                    funcs[f'{st.name}.{g.name}'] = g
+    callers = dict(funcs)
+    for em in extra_modules:
+        for st in ix.module(em).tree.body:
+            if isinstance(st, _ast.ClassDef):
+                for g in st.body:
+                    if isinstance(g, _ast.FunctionDef):
+                        funcs.setdefault(g.name, g)
+            elif isinstance(st, _ast.FunctionDef):
+                funcs.setdefault(st.name, st)
+    n = 0
+    for q, f in sorted(callers.items()):
+        if '.' not in q and any(q == k.split('.')[-1] and '.' in k for k in callers):
+            continue
+        if only is not None and q not in only:
+            continue
+        for a in _ast.walk(f):
+            if not (isinstance(a, _ast.Assign) and len(a.targets) == 1 and isinstance(a.targets[0], _ast.Name) and isinstance(a.value, _ast.Call)):
+                continue
+            callee = _chain(a.value.func) or ''
+            key = callee[5:] if callee.startswith('self.') else callee
+            if not key and isinstance(a.value.func, _ast.Attribute):
+                key = a.value.func.attr
+            g = (funcs.get(key) or funcs.get(key.split('.')[-1])) if key else None
+            if g is None or key.split('.')[-1] not in {k.split('.')[-1] for k in funcs}:
+                continue
+            muts = [x for x in mutations_of(f, a.targets[0].id) if not isinstance(x, _ast.Assign) or any(isinstance(t, _ast.Subscript) for t in x.targets)]
+            if not muts:
+                continue
+            rets = returns_of(g)
+            if not rets:
+                continue
+            n += 1
+            cached = [ast.unparse(d) for d in g.decorator_list if any(w in ast.unparse(d) for w in ('lru_cache', 'cache', 'memo'))]
+            fresh = not cached and all(isinstance(r.value, (_ast.Dict, _ast.List, _ast.Set, _ast.ListComp, _ast.DictComp, _ast.SetComp, _ast.Tuple)) or
+                        (isinstance(r.value, _ast.Call) and (_chain(r.value.func) or '') in ('dict', 'list', 'set', 'collections.OrderedDict', 'collections.defaultdict', 'copy.copy', 'copy.deepcopy'))
+                        for r in rets)
+            rep.ob(rule, f'{modname}:{q}', f'`{a.targets[0].id}` (changed in place here) comes from {key}(), which returns a new object each time', fresh,
+                   found=('@' + cached[0] + ' ' if cached else '') + '; '.join(ast.unparse(r.value)[:60] for r in rets), required='a display / comprehension / constructor call, not a shared module- or class-level object',
+                   node=a, module=m)
+    return n
+
+
+def check_param_attrs_unmutated(rep, rule, ix, modname, clsname):
+    """an object handed to the constructor and kept (self.a = param) belongs to the caller: no method changes it in place"""
+    import ast as _ast
+    m = ix.module(modname)
+    cls = ix.get_class(modname, clsname)
+    init = next((f for f in cls.body if isinstance(f, _ast.FunctionDef) and f.name == '__init__'), None)
+    if init is None:
+        return 0
+    params = {a.arg for a in init.args.args[1:]} | {a.arg for a in init.args.kwonlyargs}
+    kept = {}
+    for a in _ast.walk(init):
+        if isinstance(a, _ast.Assign) and len(a.targets) == 1 and isinstance(a.targets[0], _ast.Attribute) and isinstance(a.targets[0].value, _ast.Name) \
+                and a.targets[0].value.id == 'self' and isinstance(a.value, _ast.Name) and a.value.id in params:
+            kept[a.targets[0].attr] = a.value.id
+    n = 0
+    for attr, pn in sorted(kept.items()):
+        for f in cls.body:
+            if not isinstance(f, _ast.FunctionDef):
+                continue
+            muts = [x for x in mutations_of(f, f'self.{attr}') if not (isinstance(x, _ast.Assign) and any(isinstance(t, _ast.Attribute) and t.attr == attr for t in x.targets))
+                    and not (isinstance(x, _ast.AugAssign) and isinstance(x.value, _ast.Constant) and isinstance(x.value.value, (int, float)))]    # a counter: += number rebinds
+            if f.name == '__init__':
+                muts += [x for x in mutations_of(f, pn) if not isinstance(x, _ast.Assign) or any(isinstance(t, _ast.Subscript) for t in x.targets)]
+            n += 1
+            rep.ob(rule, f'{modname}:{clsname}.{f.name}', f'the caller\'s `{pn}` (kept as self.{attr}) is not changed in place', not muts,
+                   found='; '.join(ast.unparse(stmt_containing(x) if not isinstance(x, _ast.stmt) else x)[:70] for x in muts), required='copy before changing',
+                   node=muts[0] if muts else f, module=m, nontrivial=bool(muts) or n <= 3)
+    return n
